@@ -27,6 +27,18 @@ type Dir struct {
 	Src, Dst layers.TCPPort
 	Inc      int // incarnation (re-opened 4-tuple), C11 only
 	SynData  int // bytes carried by the SYN
+	// Abort: the direction is reset in the middle (an injected or early RST at
+	// offset AbortAt) while its data segments keep coming
+	Abort   bool
+	AbortAt int
+}
+
+// EndOff is the stream offset at which this direction legitimately ends.
+func (d *Dir) EndOff() int {
+	if d.Abort {
+		return d.AbortAt
+	}
+	return len(d.S)
 }
 
 // Pkt is one TCP segment on its way to the sniffer.
@@ -44,6 +56,7 @@ const (
 	EvFlushT
 	EvFlushClose
 	EvFlushAll
+	EvFlushTTC // flush with separate cut-offs for releasing data (T) and closing (TC)
 )
 
 // Event is one entry of the discrete-event queue.
@@ -53,6 +66,9 @@ type Event struct {
 	K   int
 	P   *Pkt
 	Age int64 // for flushes: cut-off = now - Age
+	// EvFlushTTC: closing cut-off = now - AgeC; NoT: the data cut-off is the zero time
+	AgeC int64
+	NoT  bool
 }
 
 // Base is the simulated epoch.
@@ -212,18 +228,37 @@ func Generate(c *sim.Ctx, cfg GenCfg) *Plan {
 					d.SynData = synData
 				}
 				emit(&Pkt{Dir: d.Idx, Seq: d.ISN, SYN: true, Len: synData, Kind: "syn"}, t)
-				for off := synData; off < n; {
+				// the FIN may carry the last bytes of the stream, as it often does
+				finData := 0
+				if cfg.SynData && d.End == 0 && n > synData && c.Chance(200) {
+					finData = 1 + c.Draw(min(n-synData, segMax))
+					c.Fault("fin_carries_data")
+				}
+				for off := synData; off < n-finData; {
 					l := 1 + c.Draw(segMax)
-					if off+l > n {
-						l = n - off
+					if off+l > n-finData {
+						l = n - finData - off
 					}
 					t += int64(1+c.Draw(20)) * 50_000
 					emit(&Pkt{Dir: d.Idx, Seq: d.ISN + 1 + uint32(off), Off: off, Len: l, Kind: "data"}, t)
 					off += l
+					if cfg.SynData && c.Chance(60) {
+						// a segment without payload (pure ACK, window update) at the
+						// sender's current position
+						c.Fault("empty_segment")
+						emit(&Pkt{Dir: d.Idx, Seq: d.ISN + 1 + uint32(off), Off: off, Len: 0, Kind: "ack"}, t+int64(1+c.Draw(10))*5_000)
+					}
 				}
 				t += 50_000
-				if d.End != 2 {
-					emit(&Pkt{Dir: d.Idx, Seq: d.ISN + 1 + uint32(n), FIN: d.End == 0, RST: d.End == 1, Off: n, Kind: "end"}, t)
+				if cfg.SynData && cfg.AllowRST && d.End == 1 && n > 1 && c.Chance(350) {
+					// the reset comes in the middle of the sequence space (injected by
+					// a middlebox, or sent early): segments beyond it are still on
+					// their way and some may already be buffered when it arrives
+					d.Abort, d.AbortAt = true, c.Draw(n)
+					c.Fault("mid_stream_reset")
+					emit(&Pkt{Dir: d.Idx, Seq: d.ISN + 1 + uint32(d.AbortAt), RST: true, Off: d.AbortAt, Kind: "end"}, start+int64(c.Draw(int((t-start)/50_000)+2))*50_000+11)
+				} else if d.End != 2 {
+					emit(&Pkt{Dir: d.Idx, Seq: d.ISN + 1 + uint32(n-finData), FIN: d.End == 0, RST: d.End == 1, Off: n - finData, Len: finData, Kind: "end"}, t)
 				}
 				// retransmissions with a different segmentation
 				for r := 0; r < p.Rexmits && n > 0; r++ {
@@ -297,7 +332,17 @@ func Generate(c *sim.Ctx, cfg GenCfg) *Plan {
 		if cfg.CloseFlush && c.Chance(400) {
 			k = EvFlushClose
 		}
+		if cfg.CloseFlush && c.Chance(250) {
+			// data and closing cut-offs chosen independently (either may be the
+			// older one, the data cut-off may be absent)
+			k = EvFlushTTC
+		}
 		add(at+3, k, nil, age)
+		if k == EvFlushTTC {
+			e := &p.Events[len(p.Events)-1]
+			e.AgeC = int64(c.Weighted(2, 2, 2, 1)) * int64(1+c.Draw(20)) * 100_000
+			e.NoT = c.Chance(250)
+		}
 	}
 	sort.SliceStable(p.Events, func(i, j int) bool {
 		if p.Events[i].At != p.Events[j].At {
